@@ -426,10 +426,17 @@ type ACLSpec struct {
 	AdminUsers []string `json:"admins"`
 	Header     string   `json:"header"`  // configured ACL header ("" = default)
 	SendAs     string   `json:"send_as"` // header name the identity is sent under ("" = the configured one)
+	// LkHealth: health of the two nsqlookupd stubs (nil = both ok): the action must still be
+	// carried out on every nsqd that can be determined
+	LkHealth []string `json:"lk_health,omitempty"`
 }
 
 func (a ACLSpec) String() string {
-	return fmt.Sprintf("%s body=%q identity=%q admins=%v header=%q sent-as=%q", a.Route, a.Body, a.Identity, a.AdminUsers, a.Header, a.SendAs)
+	s := fmt.Sprintf("%s body=%q identity=%q admins=%v header=%q sent-as=%q", a.Route, a.Body, a.Identity, a.AdminUsers, a.Header, a.SendAs)
+	if a.LkHealth != nil {
+		s += fmt.Sprintf(" lookupds=%v", a.LkHealth)
+	}
+	return s
 }
 
 var aclCluster = MCluster{Lookupds: []string{"ok", "ok"}, Nodes: []MNode{
@@ -443,9 +450,21 @@ func RunACL(spec ACLSpec) vx.Out {
 	bad := func(clause, f string, a ...interface{}) {
 		viol = append(viol, vx.Found{Sig: clause + " :: acl " + spec.String(), Detail: fmt.Sprintf(f, a...)})
 	}
-	s := startStubs(aclCluster)
+	cluster := aclCluster
+	lkFailing, lkHealthy := 0, 0
+	if spec.LkHealth != nil {
+		cluster.Lookupds = spec.LkHealth
+	}
+	for _, hl := range cluster.Lookupds {
+		if hl == "ok" {
+			lkHealthy++
+		} else {
+			lkFailing++
+		}
+	}
+	s := startStubs(cluster)
 	defer s.close()
-	h, err := newAdmin(aclCluster, s, func(o *Options) {
+	h, err := newAdmin(cluster, s, func(o *Options) {
 		o.AdminUsers = spec.AdminUsers
 		if spec.Header != "" {
 			o.ACLHTTPHeader = spec.Header
@@ -502,6 +521,30 @@ func RunACL(spec ACLSpec) vx.Out {
 		}
 		if len(reqs) != 0 {
 			bad("C17 refused request reached an upstream", "upstream requests: %v", reqs)
+		}
+	case mutating && isAdmin && lkFailing > 0:
+		// some nsqlookupd fails: the action is still carried out on every nsqd that can be
+		// determined - the producers of the topic as long as one nsqlookupd answers, the
+		// named node in any case
+		var nsqdWrites, want []string
+		for _, wr := range writes {
+			if strings.HasPrefix(wr, "nsqd") {
+				nsqdWrites = append(nsqdWrites, wr)
+			}
+		}
+		for _, wr := range expectedFanout(method, path, spec.Body, s.nsqd[0]) {
+			if strings.HasPrefix(wr, "nsqd") {
+				want = append(want, wr)
+			}
+		}
+		isNode := strings.HasPrefix(path, "/api/nodes")
+		if lkHealthy > 0 || isNode {
+			if code == 403 {
+				bad("C17 admin request refused", "answered 403")
+			}
+			if fmt.Sprint(nsqdWrites) != fmt.Sprint(want) {
+				bad("C17 admin action not carried out on every relevant upstream", "with nsqlookupds %v: answered %d, nsqd writes %v, expected %v", cluster.Lookupds, code, nsqdWrites, want)
+			}
 		}
 	case mutating && isAdmin:
 		if code == 403 {
@@ -883,9 +926,22 @@ func RunView(c MCluster) vx.Out {
 		}
 		// ---- /api/counter
 		code, m = get("/api/counter")
-		if code == 200 && !anyInconsistent && nodesDown == 0 {
+		healthyVis := 0
+		for _, n := range vis {
+			if healthyNode(n) {
+				healthyVis++
+			}
+		}
+		if !anyInconsistent && healthyVis > 0 && code != 200 {
+			// some nsqd answers: the view is built from the rest (whatever it contains)
+			bad("C18 view failed although an upstream answers", "/api/counter answered %d with %d of %d nsqd healthy", code, healthyVis, len(vis))
+		}
+		if code == 200 && !anyInconsistent {
 			var want int64
 			for _, n := range vis {
+				if !healthyNode(n) {
+					continue
+				}
 				for _, t := range n.Topics {
 					for _, ch := range t.Channels {
 						want += ch.Msgs
@@ -900,7 +956,10 @@ func RunView(c MCluster) vx.Out {
 				}
 			}
 			if got != want {
-				bad("C18 counter view is not the sum over channels and nodes", "/api/counter sums to %d, nodes report %d", got, want)
+				bad("C18 counter view is not the sum over channels and nodes", "/api/counter sums to %d, healthy nodes report %d", got, want)
+			}
+			if nodesDown > 0 && healthyVis > 0 && !warn(m) {
+				bad("C18 failing upstream without a warning", "/api/counter: %d nsqd failing, message empty", nodesDown)
 			}
 		}
 	}
